@@ -56,7 +56,12 @@ def _immutable_rhs(e) -> bool:
         return _immutable_rhs(e.left) and _immutable_rhs(e.right)
     if isinstance(e, ast.UnaryOp):
         return _immutable_rhs(e.operand)
-    if isinstance(e, ast.Call) and isinstance(e.func, ast.Name) and e.func.id in ("int", "str", "float", "len", "chr", "bytes", "bool", "abs", "round"):
+    if isinstance(e, ast.Call) and isinstance(e.func, ast.Name) and e.func.id in ("int", "str", "float", "len", "chr", "bytes", "bool", "abs", "round", "format", "repr", "hex", "bin"):
+        return True
+    # a string built from a literal: "..".format(..), "..".join(..), " ".ljust(..) - the result is a new str
+    if isinstance(e, ast.Call) and isinstance(e.func, ast.Attribute) and isinstance(e.func.value, ast.Constant) and isinstance(e.func.value.value, (str, bytes)):
+        return True
+    if isinstance(e, ast.BinOp) and isinstance(e.op, ast.Mod) and isinstance(e.left, ast.Constant) and isinstance(e.left.value, (str, bytes)):
         return True
     return False
 
